@@ -22,7 +22,13 @@ if [ "$PATCH" != "-" ]; then
   git -C $D/repo apply "$PATCH"
 fi
 mkdir -p $D/verif
-rsync -a --delete --exclude work --exclude .git --exclude 'lean/.lake' /verif/ $D/verif/
+# sources: the COMMITTED tree of /verif (builders may have half-edited files in the working tree); MUTENV_WORKTREE=1 copies the working tree instead
+if [ -n "$MUTENV_WORKTREE" ]; then
+  rsync -a --delete --exclude work --exclude .git --exclude 'lean/.lake' /verif/ $D/verif/
+else
+  rm -rf $D/src.tmp && mkdir -p $D/src.tmp && git -C /verif archive HEAD | tar -x -C $D/src.tmp
+  rsync -a --delete --exclude work --exclude 'lean/.lake' $D/src.tmp/ $D/verif/ && rm -rf $D/src.tmp
+fi
 mkdir -p $D/verif/work
 # lean build output: synchronised every time (oleans are position independent enough; lake re-checks hashes), so that
 # an environment never has to recompile the proof libraries
